@@ -10,7 +10,6 @@
      NF_Triplet::force                     /repo/src/Matrix/NF_Triplet.cpp:56
    MSS / _setNumberElementPerCell / _getPolarized come from the generated file gen/MSS.v.
    Grid index / coordinate maps are those of the C16 model (imported, not copied).
-   The model keeps what the code does, including the row counter that is not advanced for a sample outside the grid.
    No proofs here. *)
 From Coq Require Import List ZArith QArith Qround Qabs Qminmax Bool.
 From Gst Require Import lib.QAux C15.gen.MSS.
@@ -182,9 +181,8 @@ Definition proj_point (t : turbo) (sb : list bool) (coor : list Q) : prow :=
         else {| p_located := true; p_found := None; p_margin := snd r1; p_locmargin := lm |}
     end.
 
-(* the loop on samples of MeshETurbo::resetProjMatrix: [iech] is advanced only for a located sample
-   (the "continue" of the outside-grid branch skips iech++), [nvalid] for every sample.
-   Triplets are kept as (row, entries). *)
+(* the loop on samples of MeshETurbo::resetProjMatrix: [iech] is advanced for every valid sample, located on the grid
+   or not (a sample outside the grid keeps an empty row).  Triplets are kept as (row, entries). *)
 Definition entries_of (f : list Z * list Q * list Q) : list (Z * Q) := combine (fst (fst f)) (snd f).
 Fixpoint turbo_loop (t : turbo) (sb : list bool) (pts : list (list Q)) (iech : nat)
   : list (nat * list (Z * Q)) * list prow :=
@@ -192,12 +190,8 @@ Fixpoint turbo_loop (t : turbo) (sb : list bool) (pts : list (list Q)) (iech : n
   | [] => ([], [])
   | coor :: rest =>
       let p := proj_point t sb coor in
-      if p_located p then
-        let r := turbo_loop t sb rest (S iech) in
-        (match p_found p with Some f => (iech, entries_of f) :: fst r | None => fst r end, p :: snd r)
-      else
-        let r := turbo_loop t sb rest iech in
-        (fst r, p :: snd r)
+      let r := turbo_loop t sb rest (S iech) in
+      (match p_found p with Some f => (iech, entries_of f) :: fst r | None => fst r end, p :: snd r)
   end.
 Definition row_of (trip : list (nat * list (Z * Q))) (r : nat) : list (Z * Q) :=
   flat_map (fun e => if Nat.eqb (fst e) r then snd e else []) trip.
@@ -275,12 +269,12 @@ Fixpoint standard_loop (s : smesh) (pts : list (list Q)) (imesh0 iech : nat)
           (fst nxt, {| sr_found := None; sr_margin := snd r |} :: snd nxt)
       end
   end.
-(* "if (ip_max < getNApices() - 1) NF_T.force(nvalid, getNApices())": without the forcing entry the matrix has as
-   many rows as the last row that received a triplet *)
+(* NF_T.force(nvalid, getNApices()) whatever the triplets: one row per valid sample *)
+Definition srow_entries (s : smesh) (r : srow) : list (Z * Q) :=
+  match sr_found r with
+  | Some (imesh, ws) => combine (map Z.of_nat (nth imesh (s_meshes s) [])) ws
+  | None => []
+  end.
 Definition proj_standard (s : smesh) (pts : list (list Q)) : nat * list (list (Z * Q)) * list srow :=
   let r := standard_loop s pts 0 0 in
-  let trip := fst r in
-  let ip_max := fold_right Z.max 0%Z (flat_map (fun e => map fst (snd e)) trip) in
-  let last_row := fold_right Nat.max 0%nat (map (fun e => S (fst e)) trip) in
-  let nrows := if (ip_max <? Z.of_nat (length (s_apices s)) - 1)%Z then length pts else last_row in
-  (nrows, map (row_of trip) (seq 0 nrows), snd r).
+  (length pts, map (row_of (fst r)) (seq 0 (length pts)), snd r).
